@@ -47,11 +47,20 @@ func (s *Sim) Judge(stranded []string) []Finding {
 	for i := range facts {
 		facts[i] = tf{-1, -1, -1, -1, -1, false, nil}
 	}
+	waiting := make([]bool, len(s.calls)) // ack channel registered (waitAck .. removeAck)
 	for i, e := range s.Trace {
 		switch e.K {
+		case "CAckWait":
+			waiting[e.A] = true
+		case "CRetried":
+			waiting[e.A] = false
 		case "XAcks":
-			for _, id := range e.L2 {
-				if c := s.callByID(id); c != nil && facts[c.idx].ackIdx < 0 {
+			// Acknowledgement as the ENVIRONMENT sees it: a NotifyAcks call whose id vector contains
+			// the msg id of a request that is waiting for its ack has returned -- wherever the id
+			// stands in the vector (behind unknown, finished or duplicate ids) and whatever the
+			// engine did with it (e.L2, the ids the engine says it closed, is not consulted).
+			for _, id := range e.L {
+				if c := s.callByID(id); c != nil && waiting[c.idx] && facts[c.idx].ackIdx < 0 {
 					facts[c.idx].ackIdx = i
 				}
 			}
